@@ -83,14 +83,20 @@ pub fn run<W: WorldDriver>(a: usize, start_cap: usize) -> Result<BoundaryStats, 
         if W::len(w, a) != LIMIT || W::capacity(w, a) != LIMIT {
             return Err(format!("{}: len() {} capacity() {}", what, W::len(w, a), W::capacity(w, a)));
         }
-        for s in samples.iter() {
-            match catch(|| W::lookup(w, a, LookupPath::AView, Key::Any(*s))) {
-                Ok(Some(o)) if o.raw == Some(*s) && o.vals == masked => {}
-                other => return Err(format!("{}: handle {:?} no longer resolves to its entity: {:?}", what, s, other)),
+        for (i, s) in samples.iter().enumerate() {
+            // every accessor family must work on a full-at-the-limit archetype (views, whole-archetype
+            // slices as used by ecs_iter!, single slices, runtime borrows)
+            let paths: &[LookupPath] = if i < 3 { &[LookupPath::AView, LookupPath::AResolveAllSlices, LookupPath::AResolveSlices, LookupPath::AResolveBorrowSlices, LookupPath::ABorrow, LookupPath::Find] } else { &[LookupPath::AView] };
+            for p in paths {
+                match catch(|| W::lookup(w, a, *p, Key::Any(*s))) {
+                    Ok(Some(o)) if o.raw == Some(*s) && o.vals == masked => {}
+                    other => return Err(format!("{}: {:?} of handle {:?} no longer yields its entity: {:?}", what, p, s, other)),
+                }
             }
         }
         Ok(())
     };
+    check_intact(&mut w, &samples, "with exactly 16777216 entities")?;
     for round in 0..2 {
         match catch(|| W::create(&mut w, a, CreatePath::WCreate, &vals)) {
             Err(m) if m.contains("capacity overflow") => {}
